@@ -41,6 +41,9 @@
 #include <sys/syscall.h>
 #include <sys/mman.h>
 #include <fcntl.h>
+#include <semaphore.h>
+#include <sys/wait.h>
+#include <signal.h>
 #include "hwloc/shmem.h"
 
 /* ------------------------------------------------------------------ */
@@ -81,6 +84,25 @@ static int errno_of_class(const char *s)
   if (!strcmp(s, "ENOENT")) return ENOENT; if (!strcmp(s, "EOTHER")) return ESRCH;
   return -1; /* keep */
 }
+
+
+/* ------------------------------------------------------------------ */
+/* a second live thread, parked on a semaphore: its pthread_t / tid is what the thread-handle entry points get */
+static pthread_t park_thread; static volatile pid_t park_tid; static sem_t park_go, park_done; static int park_started; static volatile int park_quit;
+static void *park_fn(void *arg)
+{
+  park_tid = (pid_t)syscall(SYS_gettid); sem_post(&park_done);
+  for (;;) { sem_wait(&park_go); if (park_quit) break; sem_post(&park_done); }   /* runs a little after every wake-up */
+  return NULL;
+}
+static void park_start(void)
+{
+  if (park_started) return;
+  sem_init(&park_go, 0, 0); sem_init(&park_done, 0, 0);
+  pthread_create(&park_thread, NULL, park_fn, NULL); sem_wait(&park_done); park_started = 1;
+}
+static void park_run_once(void) { sem_post(&park_go); sem_wait(&park_done); }
+static void park_stop(void) { if (park_started) { park_quit = 1; sem_post(&park_go); pthread_join(park_thread, NULL); park_started = 0; } }
 
 #ifndef HWV_LIVE
 /* ------------------------------------------------------------------ */
@@ -127,6 +149,23 @@ int sched_getaffinity(pid_t pid, size_t sz, cpu_set_t *mask)
   if (os_rc[OC_GETAFF] < 0) return (int)os_answer(OC_GETAFF);
   memset(mask, 0, sz);
   for (i = 0; i < 8 * sz; i++) if (hwloc_bitmap_isset(pid && os_affproc ? os_affproc : os_aff, i)) ((unsigned long *)mask)[i / 64] |= 1UL << (i % 64);
+  return 0;
+}
+/* hwloc_linux_{set,get}_thread_cpubind use these for a pthread_t that is not the caller; they return an errno value */
+int pthread_setaffinity_np(pthread_t th, size_t sz, const cpu_set_t *mask)
+{
+  if (!os_intercept) return (int)raw_syscall6(SYS_sched_setaffinity, park_tid, (long)sz, (long)mask, 0, 0, 0) < 0 ? errno : 0;
+  tr_add(" setaffinity(other,"); tr_mask((const unsigned long *)mask, 8 * sz); tr_add(")");
+  return os_rc[OC_SETAFF] < 0 ? os_errno[OC_SETAFF] : 0;
+}
+int pthread_getaffinity_np(pthread_t th, size_t sz, cpu_set_t *mask)
+{
+  unsigned i;
+  if (!os_intercept) return raw_syscall6(SYS_sched_getaffinity, park_tid, (long)sz, (long)mask, 0, 0, 0) < 0 ? errno : 0;
+  tr_add(" getaffinity(other)");
+  if (os_rc[OC_GETAFF] < 0) return os_errno[OC_GETAFF];
+  memset(mask, 0, sz);
+  for (i = 0; i < 8 * sz; i++) if (hwloc_bitmap_isset(os_affproc ? os_affproc : os_aff, i)) ((unsigned long *)mask)[i / 64] |= 1UL << (i % 64);
   return 0;
 }
 int sched_getcpu(void)
@@ -218,6 +257,7 @@ static void *rh_alloc_membind(hwloc_topology_t t, size_t len, hwloc_const_nodese
 static int rh_free(hwloc_topology_t t, void *a, size_t len) { free(a); return 0; }
 
 static int hooks_mode;
+static pid_t hwv_child; static int hwv_child_fd = -1;
 static struct hwloc_binding_hooks saved_hooks; static struct hwloc_topology *saved_hooks_of;
 static void restore_installed_hooks(struct hwloc_topology *t)
 {
@@ -439,6 +479,36 @@ int main(void)
       printf(" npu=%d\n", lr == 0 ? hwloc_get_nbobjs_by_type(t2, HWLOC_OBJ_PU) : -1);
       hwloc_topology_destroy(t2); hwloc_bitmap_free(b0); hwloc_bitmap_free(b1); continue;
     }
+    if (!strcmp(cmd, "ot") || !strcmp(cmd, "tp") || !strcmp(cmd, "cp")) { /* round trip on ANOTHER thread (pthread_t / tid) or on a CHILD process */
+      static pid_t child; static int p2c[2], c2p[2];
+      hwloc_bitmap_t b = hwv_parse_set(a1), g = hwloc_bitmap_alloc(), raw = hwloc_bitmap_alloc(), last = hwloc_bitmap_alloc();
+      int fl = (int)strtoul(a2, NULL, 0), rs = -2, rg = -2, rl = -2, es = 0; pid_t target; char c = 'r';
+      if (!t || !loaded || !b) { printf("ot-error\n"); continue; }
+      if (!strcmp(cmd, "cp")) {
+        if (!child) { /* a parked child: answers one byte per wake-up, so it has run after each rebinding */
+          if (pipe(p2c) || pipe(c2p)) { printf("ot-error pipe\n"); continue; }
+          fflush(stdout);
+          child = fork();
+          if (!child) { char x; close(p2c[1]); close(c2p[0]); while (read(p2c[0], &x, 1) == 1 && x != 'q') if (write(c2p[1], &x, 1) != 1) break; _exit(0); }
+          close(p2c[0]); close(c2p[1]); hwv_child = child; hwv_child_fd = p2c[1];
+        }
+        target = child; errno = 0;
+        rs = hwloc_set_proc_cpubind(t, child, b, fl); es = errno;
+        if (write(p2c[1], &c, 1) == 1 && read(c2p[0], &c, 1) == 1) {}
+        rg = hwloc_get_proc_cpubind(t, child, g, fl);
+        rl = hwloc_get_proc_last_cpu_location(t, child, last, fl);
+      } else {
+        park_start(); target = park_tid; errno = 0;
+        if (!strcmp(cmd, "ot")) { rs = hwloc_set_thread_cpubind(t, park_thread, b, fl); es = errno; park_run_once(); rg = hwloc_get_thread_cpubind(t, park_thread, g, fl); }
+        else { rs = hwloc_set_proc_cpubind(t, park_tid, b, fl | HWLOC_CPUBIND_THREAD); es = errno; park_run_once(); rg = hwloc_get_proc_cpubind(t, park_tid, g, fl | HWLOC_CPUBIND_THREAD); }
+        rl = hwloc_get_proc_last_cpu_location(t, park_tid, last, HWLOC_CPUBIND_THREAD);
+      }
+      raw_affinity_tid(target, raw);
+      printf("O kind=%s flags=%d set=", cmd, fl); hwv_pset(stdout, b);
+      printf(" set_rc=%d set_errno=%s get_rc=%d get=", rs, rs < 0 ? hwv_errno_class(es) : "0", rg); hwv_pset(stdout, g);
+      fputs(" raw=", stdout); hwv_pset(stdout, raw); printf(" last_rc=%d last=", rl); hwv_pset(stdout, last); fputc('\n', stdout);
+      hwloc_bitmap_free(b); hwloc_bitmap_free(g); hwloc_bitmap_free(raw); hwloc_bitmap_free(last); continue;
+    }
     if (!strcmp(cmd, "foreigndup")) { /* <cpu>: bind through a synthetic (foreign) topology, its duplicate and a duplicate of that */
       hwloc_topology_t f, d1 = NULL, d2 = NULL, which[3]; const char *names[3] = { "orig", "dup", "dupdup" }; int k;
       hwloc_topology_init(&f); hwloc_topology_set_synthetic(f, a2[0] ? a2 : "pu:64"); hwloc_topology_load(f);
@@ -564,6 +634,8 @@ int main(void)
       else if (!strcmp(cmd, "gpcb")) { rc = hwloc_get_proc_cpubind(t, parse_who(a1), out, FL(a2)); e = errno; report_int(rc, e, out, POL_SENTINEL); }
       else if (!strcmp(cmd, "stcb")) { in = hwv_parse_set(a1); rc = hwloc_set_thread_cpubind(t, pthread_self(), in, FL(a2)); e = errno; report_int(rc, e, NULL, POL_SENTINEL); }
       else if (!strcmp(cmd, "gtcb")) { rc = hwloc_get_thread_cpubind(t, pthread_self(), out, FL(a1)); e = errno; report_int(rc, e, out, POL_SENTINEL); }
+      else if (!strcmp(cmd, "stcbo")) { park_start(); in = hwv_parse_set(a1); rc = hwloc_set_thread_cpubind(t, park_thread, in, FL(a2)); e = errno; report_int(rc, e, NULL, POL_SENTINEL); }
+      else if (!strcmp(cmd, "gtcbo")) { park_start(); rc = hwloc_get_thread_cpubind(t, park_thread, out, FL(a1)); e = errno; report_int(rc, e, out, POL_SENTINEL); }
       else if (!strcmp(cmd, "glcl")) { rc = hwloc_get_last_cpu_location(t, out, FL(a1)); e = errno; report_int(rc, e, out, POL_SENTINEL); }
       else if (!strcmp(cmd, "gplcl")) { rc = hwloc_get_proc_last_cpu_location(t, parse_who(a1), out, FL(a2)); e = errno; report_int(rc, e, out, POL_SENTINEL); }
       else if (!strcmp(cmd, "smb")) { in = hwv_parse_set(a1); rc = hwloc_set_membind(t, in, (hwloc_membind_policy_t)atoi(a2), FL(a3)); e = errno; report_int(rc, e, NULL, POL_SENTINEL); }
@@ -603,6 +675,8 @@ int main(void)
       hwloc_bitmap_free(out); if (in) hwloc_bitmap_free(in);
     }
   }
+  park_stop();
+  if (hwv_child > 0) { char q = 'q'; int st; if (write(hwv_child_fd, &q, 1) != 1) kill(hwv_child, SIGKILL); waitpid(hwv_child, &st, 0); }
   if (t) hwloc_topology_destroy(t);
   free(line); free(area); free(trace); free(hwv_xmlbuf);
   hwloc_bitmap_free(sentinel);
